@@ -174,7 +174,10 @@ def run(ctx):
                 res, evs, st = c20.run_schedule(pa, sc, base_)
                 n_inter += 1
                 for c, got in zip(pa, res):
-                    if got is None or (got.startswith('exc:') and not got.startswith(('exc:ParsingException', 'exc:LexError'))):
+                    if got is None:
+                        ctx.cov['interleaved_unfinished'] = ctx.cov.get('interleaved_unfinished', 0) + 1
+                        continue        # the forced schedule could not be completed in time (machine load): not judged
+                    if got.startswith('exc:') and not got.startswith(('exc:ParsingException', 'exc:LexError')):
                         ctx.violation('internal:%s:interleaved-calls:%s' % ((got or 'exc:None').split(':')[1], d),
                                       'a parse_sql call that overlaps in time with another one ends in an internal error',
                                       {'sql': c[1], 'dialect': d, 'kind': 'interleaved', 'final': (got or 'None')[:200],
